@@ -109,7 +109,7 @@ def explore(sem, root, env=None, max_depth=12):
 def adaptor_args(w, vis, be, body, cb):
     """parameter values of a closure that is the argument of an iterator / Option / Result adaptor of `body`: the item is
     elem(receiver iterator) (krpsa.iters), the payload of an Option / Result receiver its Some / Ok / Err projection"""
-    from .iters import ITEM_ADAPTORS_1, ITEM_ADAPTORS_2, last
+    from .iters import ITEM_ADAPTORS_1, ITEM_ADAPTORS_2, last, mk_item
     for blk in body.blocks:
         t = blk.term
         if t.kind != "call" or blk.idx not in be.cfg.live or len(t.args) < 2:
@@ -127,9 +127,9 @@ def adaptor_args(w, vis, be, body, cb):
         recv = vis.resolve(be.ev_operand(blk.idx, n, t.args[0]))
         if tr.endswith("iter::Iterator") or tr.endswith("iter::DoubleEndedIterator"):
             if nm in ITEM_ADAPTORS_1:
-                return [None, E("elem", (recv,))]
+                return [None, mk_item(w, recv)]
             if nm in ITEM_ADAPTORS_2 and hit == 2:
-                return [None, None, E("elem", (recv,))]
+                return [None, None, mk_item(w, recv)]
         p = _strip(t.callee.path)
         if p.startswith("std::option::Option::") and nm in ("map", "and_then", "filter", "map_or", "map_or_else", "is_some_and", "inspect"):
             return [None] * hit + [E("proj", (recv,), "some")] if nm in ("map_or", "map_or_else") else [None, E("proj", (recv,), "some")]
@@ -204,6 +204,21 @@ def site_guarded(sem, vis, bb, fact_pred):
         reach = be.cfg.reach([0], removed=removed)
         if site not in reach:
             return True, "guarded in %s (%d pass edge(s))" % (level.body.path, len(pass_edges))
+        # a closure fed by an iterator pipeline only ever sees items that passed the pipeline's filters: the facts that hold
+        # whenever a filter's predicate returns true hold for the item
+        if level.body.kind == "closure" and level.args:
+            from .iters import item_source, droppers, true_facts
+            for it in [a for a in level.args if a is not None and a.op == "elem"]:
+                src = item_source(sem.w, it)
+                for (nm, c) in (droppers(sem.w, src) if src is not None else []):
+                    if nm in ("filter", "take_while") and len(c.args) > 1 and c.args[1].op == "closure" and c.args[1].info in sem.w.prog.bodies:
+                        pb = sem.w.prog.bodies[c.args[1].info]
+                        clo = c.args[1]
+
+                        def res(x, pb=pb, clo=clo, it=it):
+                            return sem.w.subst_params(x, pb, [None, it], upvars=list(clo.args))
+                        if any(fact_pred(f, res) for f in true_facts(sem, pb)):
+                            return True, "guarded by the %s predicate %s feeding %s" % (nm, pb.path, level.body.path)
         p = be.cfg.path(0, site, removed=removed) or []
         lines = []
         for b in p:
